@@ -10,7 +10,7 @@ ID = "C17"
 LEVEL = "exploration"
 NEEDS = {"lib": ["dev", "release"], "cli": ["dev", "release"], "interposer": True}
 RULE = ("every library request must return ok or err (never an unwinding panic, a crash signal or more than 25 s of CPU on one "
-        "request); every process run must exit 0, 2 or 255 with a message on stderr when non-zero (never 101, a signal, an entropy-"
+        "request); every process run must exit 0 or with an ordinary non-zero status and a message on stderr (never 101, a signal, an entropy-"
         "request cap hit or a blocked process). Workloads: byte-level (flip/insert/delete/duplicate/truncate/splice/token) and "
         "token-level (boundary numbers, nesting to 128 and beyond, 64 array suffixes, huge strings, word counts 0..40, indices around "
         "2^31/2^32/2^64, scalars around 0 and n, chain ids to 2^256-1, worker counts 0..64, invalid UTF-8 in environment and files) "
@@ -19,7 +19,7 @@ RULE = ("every library request must return ok or err (never an unwinding panic, 
         "tier. distinct = distinct requests / command lines; non-trivial = the outcome class was inspected")
 OTHERS = ["c01", "c02", "c03", "c04", "c05", "c06", "c07", "c08", "c09", "c10", "c11", "c12", "c13", "c14", "c15", "c16", "c18", "c19", "c20"]
 STRIDE = {"c01": 12, "c07": 8, "c08": 3, "c09": 3}
-REQUIRED = (["lib-ok", "lib-err", "cli-exit-0", "cli-exit-2", "cli-exit-255", "lib-mnemonic.parse", "lib-path.parse", "lib-sig.parse", "lib-tx.process",
+REQUIRED = (["lib-ok", "lib-err", "cli-exit-0", "lib-mnemonic.parse", "lib-path.parse", "lib-sig.parse", "lib-tx.process",
              "lib-typeddata.hash", "lib-key.new", "lib-hdk.derive", "lib-mnemonic.seed", "lib-path.for_index", "lib-key.sign", "lib-msg.hash",
              "lib-mnemonic.random", "cli-new", "cli-sign", "cli-hash", "cli-hex", "cli-address", "cli-export", "cli-public-key", "profile-dev",
              "profile-release", "vanity-terminated"] + ["replayed-" + m for m in OTHERS])
@@ -54,12 +54,12 @@ def judge_cli(case, obs):
                 v.bucket("watchdog-inconclusive")
             continue
         e = o["exit"]
-        if e not in (0, 2, 255):
-            v.bad("C17/%s/exit-%d" % (case["x"].get("cls", "cli"), e), "unexpected exit status %d: %s" % (e, o["stderr"][-200:]))
-        elif e != 0 and not o["stderr"].strip():
+        # any non-zero status is an ordinary error (the pinned tree uses 2 for usage errors and 255 otherwise); 101 (panic) and 97
+        # (request cap) are reported by the engine as abnormal outcomes
+        if e != 0 and not o["stderr"].strip():
             v.bad("C17/%s/silent-failure" % case["x"].get("cls", "cli"), "exit %d without a message on stderr (argv %s)" % (e, s.get("cli", {}).get("argv")))
         else:
-            v.bucket("cli-exit-%d" % e)
+            v.bucket("cli-exit-%d" % e if e in (0, 2, 255) else "cli-exit-other-nonzero")
         argv = s.get("cli", {}).get("argv") or [""]
         if argv and argv[0] in ("new", "sign", "hash", "hex", "address", "export", "public-key"):
             v.bucket("cli-" + argv[0])
